@@ -55,9 +55,11 @@ func callsNamed(in ssa.Instruction, name string) bool {
 
 func c16(c *core.Check) {
 	p := c.Prog
-	c.Explain = "Structural necessary conditions of CSS 2.1 Appendix E painting order, decided on SSA: the steps of drawStackingContext occur in the Appendix E order on every path (must-precede on the reads of the context's lists and on the drawing calls), background precedes border wherever both are drawn, outlines come after the content; child contexts are partitioned by the sign of z-index and the negative/positive lists are sorted by a stable sort with a strict comparison on z-index; a box starts a stacking context exactly when positioned with non-auto z-index, opacity<1, transformed or overflow!=visible. The dispatch of boxes into the block/float/cell lists is not decided."
+	c.Explain = "Structural necessary conditions of CSS 2.1 Appendix E painting order, decided on SSA: the steps of drawStackingContext occur in the Appendix E order on every path (must-precede on the reads of the context's lists and on the drawing calls), background precedes border wherever both are drawn, outlines come after the content; child contexts are partitioned by the sign of z-index and the negative/positive lists are sorted by a stable sort with a strict comparison on z-index; a box starts a stacking context exactly when positioned with non-auto z-index, opacity<1, transformed or overflow!=visible. Of the dispatch of boxes into the painting lists, two clauses are decided: a positioned box is never put on the float layer, and the place of a box in its list is fixed before its descendants are dispatched (tree order); which list a non-positioned, non-floated box goes to is not decided."
 	rArgs := c.Rule("R4", "no call passes two same-typed arguments under each other's parameter names (swapped arguments): every pair of arguments named after the callee's parameters is aligned with them", 12)
 	argNameRule(c, rArgs, "html/document", map[string]bool{"stacking.go": true, "draw.go": true}, 19)
+
+	c16Dispatch(c)
 
 	dsc := p.Method("html/document", "drawContext", "drawStackingContext")
 	if dsc == nil {
@@ -442,3 +444,138 @@ func c16(c *core.Check) {
 }
 
 func isConst(v ssa.Value) bool { _, ok := v.(*ssa.Const); return ok }
+
+// c16Dispatch: the dispatch closure of NewStackingContextFromBox.
+func c16Dispatch(c *core.Check) {
+	p := c.Prog
+	r := c.Rule("R5", "dispatch of boxes into the painting lists: a box is put on the float layer only when it is not positioned (a positioned float is painted with the positioned boxes, Appendix E step 8), and every insertion index (into the child contexts, the blocks and the blocks-and-cells lists) is read before the descendants of the box are dispatched, so that a box precedes its descendants (tree order)", 4)
+	fn := p.Lookup("html/document.NewStackingContextFromBox$1")
+	if fn == nil {
+		r.Anchor("html/document.NewStackingContextFromBox$1 (dispatch)")
+		return
+	}
+	// (a) floats
+	var posAtoms []ssa.Value
+	for _, a := range core.CondAtoms(fn) {
+		if bo, ok := a.(*ssa.BinOp); ok && bo.Op == token.NEQ {
+			if s, ok := core.ConstStr(bo.Y); ok && s == "static" {
+				posAtoms = append(posAtoms, a)
+			}
+		}
+	}
+	nF := 0
+	core.Instrs(fn, func(in ssa.Instruction) {
+		call, ok := in.(*ssa.Call)
+		if !ok {
+			return
+		}
+		bi, ok := call.Call.Value.(*ssa.Builtin)
+		if !ok || bi.Name() != "append" {
+			return
+		}
+		// append to the captured `floats`
+		first := call.Call.Args[0]
+		isFloats := false
+		if u, ok := first.(*ssa.UnOp); ok {
+			if fv, ok := u.X.(*ssa.FreeVar); ok && fv.Name() == "floats" {
+				isFloats = true
+			}
+		}
+		if !isFloats {
+			return
+		}
+		nF++
+		assign := map[ssa.Value]bool{}
+		for _, a := range posAtoms {
+			assign[a] = true
+		}
+		reach := core.ForwardReach(fn.Blocks[0], assign, nil)
+		r.Cond(len(posAtoms) > 0 && !reach[call.Block()], "dispatch | "+p.StmtTextAt(fn, call.Pos()), p.Pos(call.Pos()), "not reached when position != static", "a positioned box can be put on the float layer: it is painted at step 5 instead of step 8, under earlier positioned boxes")
+	})
+	if nF == 0 {
+		r.Unknown("dispatch | floats", p.Pos(fn.Pos()), "no append to the float list found")
+	}
+	// (b) insertion indices are read before the descendants are dispatched
+	// before(a, b): b can never execute before a in one activation: a is not reachable from b
+	before := func(a, b ssa.Instruction) bool {
+		if a.Block() == b.Block() {
+			for _, in := range a.Block().Instrs {
+				if in == a {
+					return true
+				}
+				if in == b {
+					return false
+				}
+			}
+		}
+		seen := map[*ssa.BasicBlock]bool{}
+		work := append([]*ssa.BasicBlock{}, b.Block().Succs...)
+		for len(work) > 0 {
+			x := work[len(work)-1]
+			work = work[:len(work)-1]
+			if seen[x] {
+				continue
+			}
+			seen[x] = true
+			work = append(work, x.Succs...)
+		}
+		return !seen[a.Block()]
+	}
+	nI := 0
+	core.Instrs(fn, func(in ssa.Instruction) {
+		call, ok := in.(*ssa.Call)
+		if !ok {
+			return
+		}
+		callee := call.Call.StaticCallee()
+		if callee == nil || (callee.Name() != "insertStackingContext" && callee.Name() != "insertBox") || len(call.Call.Args) != 3 {
+			return
+		}
+		nI++
+		key := "dispatch | " + p.StmtTextAt(fn, call.Pos())
+		// the len calls the index derives from
+		var lens []ssa.Instruction
+		core.DerivesFrom(call.Call.Args[1], func(v ssa.Value) bool {
+			if lc, ok := v.(*ssa.Call); ok {
+				if bi, ok := lc.Call.Value.(*ssa.Builtin); ok && bi.Name() == "len" {
+					lens = append(lens, lc)
+				}
+			}
+			return false
+		})
+		// the call that dispatches the descendants: the inserted value is its result
+		var producer ssa.Instruction
+		arg := call.Call.Args[2]
+		for i := 0; i < 4 && producer == nil; i++ {
+			switch x := arg.(type) {
+			case *ssa.Call:
+				producer = x
+			case *ssa.MakeInterface:
+				arg = x.X
+			case *ssa.ChangeInterface:
+				arg = x.X
+			case *ssa.UnOp:
+				arg = core.ResolveLoad(x)
+				if arg == ssa.Value(x) {
+					i = 4
+				}
+			default:
+				i = 4
+			}
+		}
+		if len(lens) == 0 || producer == nil {
+			r.Unknown(key, p.Pos(call.Pos()), fmt.Sprintf("index from %d len() calls, producer found: %v", len(lens), producer != nil))
+			return
+		}
+		ok2 := true
+		for _, l := range lens {
+			if !before(l, producer) {
+				ok2 = false
+			}
+		}
+		r.Cond(ok2, key, p.Pos(call.Pos()), "the index is read before the descendants are dispatched", "the insertion index is read after the descendants were dispatched: the box is queued after its own descendants and painted over them")
+	})
+	if nI < 3 {
+		r.Unknown("dispatch | insertions", p.Pos(fn.Pos()), fmt.Sprintf("%d insertions found, 3 expected", nI))
+	}
+}
